@@ -299,7 +299,10 @@ def check_compiled(run: common.Run, drv: common.Driver, rng: random.Random, sc: 
                     exp = None
                 if not dok or (exp is not None and dv != exp):
                     run.violation(dict(rep, kind="impl-vs-spec", expected_by_spec={"decode": exp},
-                                       observed_impl={"decode": dv, "struct_guards_intact": dok}, model_answer=mdec))
+                                       observed_impl={"decode": dv, "struct_guards_intact_and_no_read_beyond_the_buffer": dok,
+                                                      "decode_rc": {0: "ok", 1: "guard zone around the struct damaged",
+                                                                    2: "fault: the decoder touched memory beyond the message's bytes"}.get(
+                                                                        getattr(mod, "last_decode_rc", 0), "?")}, model_answer=mdec))
                     continue
                 if exp is not None and ("ok" not in mdec or G.msg_val_from_json(m, mdec["ok"]) != dv):
                     run.notes.setdefault("model_disagreements", []).append(dict(rep, observed_impl=dv, model_answer=mdec))
@@ -552,6 +555,9 @@ DETECT_BUILDS = [
     ("__BIG_ENDIAN__", ("-D__BIG_ENDIAN__",), True),
     ("__LITTLE_ENDIAN__=0", ("-D__LITTLE_ENDIAN__=0",), True),
     ("__LITTLE_ENDIAN__=1", ("-D__LITTLE_ENDIAN__=1",), False),
+    # a unity build / precompiled prefix header: libc headers (and with them <endian.h>, whose __BIG_ENDIAN / __LITTLE_ENDIAN /
+    # BIG_ENDIAN are byte-order CONSTANTS defined on every host) are seen before the runtime's detection block
+    ("libc-headers-first", ("-include", "stdlib.h", "-include", "sys/types.h", "-include", "endian.h"), False),
 ]
 
 
